@@ -1,1 +1,565 @@
-fn main(){}
+//! File-level driver: executes operation scripts against the real library and
+//! records one ndjson event per operation.  No judgement happens here.
+//!
+//! usage: drive <script.json> <out.ndjson> [--journal <file>] [--from <i>] [--only <i>]
+
+use cfb_verif_harness::backend::SharedBuf;
+use cfb_verif_harness::dict::Dict;
+use cfb_verif_harness::dump::{dump, entry_json, reopen_dump, time_json};
+use cfb_verif_harness::{err_kind, fnv64, indep, rle, unlimbs};
+use serde_json::{json, Map, Value};
+use std::collections::HashMap;
+use std::io::{self, BufWriter, Read, Seek, SeekFrom, Write};
+use std::panic::{catch_unwind, AssertUnwindSafe};
+use std::path::PathBuf;
+use std::time::{Duration, SystemTime, UNIX_EPOCH};
+
+enum Any {
+    Mem(SharedBuf),
+    File(std::fs::File),
+}
+impl Read for Any {
+    fn read(&mut self, b: &mut [u8]) -> io::Result<usize> {
+        match self {
+            Any::Mem(x) => x.read(b),
+            Any::File(x) => x.read(b),
+        }
+    }
+}
+impl Write for Any {
+    fn write(&mut self, b: &[u8]) -> io::Result<usize> {
+        match self {
+            Any::Mem(x) => x.write(b),
+            Any::File(x) => x.write(b),
+        }
+    }
+    fn flush(&mut self) -> io::Result<()> {
+        match self {
+            Any::Mem(x) => x.flush(),
+            Any::File(x) => x.flush(),
+        }
+    }
+}
+impl Seek for Any {
+    fn seek(&mut self, p: SeekFrom) -> io::Result<u64> {
+        match self {
+            Any::Mem(x) => x.seek(p),
+            Any::File(x) => x.seek(p),
+        }
+    }
+}
+
+enum Snap {
+    Mem(SharedBuf),
+    File(PathBuf),
+}
+impl Snap {
+    fn bytes(&self) -> Vec<u8> {
+        match self {
+            Snap::Mem(b) => b.snapshot(),
+            Snap::File(p) => std::fs::read(p).unwrap_or_default(),
+        }
+    }
+    fn pause(&self, on: bool) {
+        if let Snap::Mem(b) = self {
+            b.ctl.lock().unwrap().paused = on;
+        }
+    }
+}
+
+struct Live {
+    cf: Option<cfb::CompoundFile<Any>>,
+    snap: Snap,
+    handles: HashMap<String, cfb::Stream<Any>>,
+    maxbuf: Option<usize>,
+    chunks: Vec<i64>,
+}
+
+fn ticks_to_system_time(v: &Value) -> SystemTime {
+    // value dictionary entry: {"secs": i64 (string), "nanos": u32} relative to the Unix epoch
+    let secs: i64 = v["secs"].as_str().map(|s| s.parse().unwrap()).unwrap_or_else(|| v["secs"].as_i64().unwrap());
+    let nanos = v["nanos"].as_u64().unwrap_or(0) as u32;
+    if secs >= 0 {
+        UNIX_EPOCH + Duration::new(secs as u64, nanos)
+    } else {
+        // secs negative: time = epoch - |secs| + nanos
+        UNIX_EPOCH - Duration::new((-secs) as u64, 0) + Duration::new(0, nanos)
+    }
+}
+
+fn ok(v: Value) -> Value {
+    json!({"k": "ok", "v": v})
+}
+fn res_unit(r: io::Result<()>) -> Value {
+    match r {
+        Ok(()) => ok(json!("unit")),
+        Err(e) => json!({"k": "err", "e": err_kind(&e), "msg": e.to_string()}),
+    }
+}
+fn res_err(e: io::Error) -> Value {
+    json!({"k": "err", "e": err_kind(&e), "msg": e.to_string()})
+}
+
+fn new_backend(hist: &Value, bytes: Vec<u8>, tmpdir: &str, hid: &str) -> (Any, Snap, Vec<i64>) {
+    let kind = hist["backend"]["kind"].as_str().unwrap_or("mem");
+    match kind {
+        "file" => {
+            std::fs::create_dir_all(tmpdir).ok();
+            let path = PathBuf::from(format!("{}/img_{}_{}.cfb", tmpdir, std::process::id(), hid.replace('/', "_")));
+            std::fs::write(&path, &bytes).unwrap();
+            let f = std::fs::OpenOptions::new().read(true).write(true).open(&path).unwrap();
+            (Any::File(f), Snap::File(path), vec![])
+        }
+        _ => {
+            let b = SharedBuf::new(bytes);
+            let chunks: Vec<i64> = hist["backend"]["chunks"]
+                .as_array()
+                .map(|a| a.iter().map(|x| x.as_i64().unwrap()).collect())
+                .unwrap_or_default();
+            b.ctl.lock().unwrap().chunks = chunks.clone();
+            (Any::Mem(b.clone()), Snap::Mem(b), chunks)
+        }
+    }
+}
+
+fn open_with(inner: Any, strict: bool, maxbuf: Option<usize>) -> io::Result<cfb::CompoundFile<Any>> {
+    let mut o = cfb::OpenOptions::new();
+    if let Some(n) = maxbuf {
+        o = o.max_buffer_size(n);
+    }
+    if strict {
+        o = o.strict();
+    }
+    o.open_with(inner)
+}
+
+fn start_history(hist: &Value, tmpdir: &str) -> Result<Live, Value> {
+    let hid = hist["id"].as_str().unwrap_or("h");
+    let maxbuf = hist["maxbuf"].as_u64().map(|n| n as usize);
+    if let Some(img) = hist.get("image") {
+        // start from an existing image (RLE of the whole file or a path)
+        let bytes = if let Some(p) = img.as_str() {
+            std::fs::read(p).map_err(|e| json!({"k":"err","e":"Other","msg":e.to_string()}))?
+        } else {
+            rle::from_json(img)
+        };
+        let (any, snap, chunks) = new_backend(hist, bytes, tmpdir, hid);
+        let strict = hist["open_mode"].as_str() == Some("strict");
+        match open_with(any, strict, maxbuf) {
+            Ok(cf) => Ok(Live { cf: Some(cf), snap, handles: HashMap::new(), maxbuf, chunks }),
+            Err(e) => Err(res_err(e)),
+        }
+    } else {
+        let ver = if hist["ver"].as_u64() == Some(3) { cfb::Version::V3 } else { cfb::Version::V4 };
+        let (any, snap, chunks) = new_backend(hist, Vec::new(), tmpdir, hid);
+        let cf = cfb::CompoundFile::create_with_version(ver, any).map_err(res_err)?;
+        let cf = match maxbuf {
+            None => cf,
+            Some(_) => {
+                // the only way to get V3 with a custom buffer size: reopen
+                let inner = cf.into_inner();
+                open_with(inner, false, maxbuf).map_err(res_err)?
+            }
+        };
+        Ok(Live { cf: Some(cf), snap, handles: HashMap::new(), maxbuf, chunks })
+    }
+}
+
+fn heavy(live: &mut Live, dict: &Dict, ev: &mut Map<String, Value>, want_img: bool, want_reopen: bool, iopt: &indep::Options) {
+    live.snap.pause(true);
+    let r = catch_unwind(AssertUnwindSafe(|| {
+        let api = dump(live.cf.as_mut().unwrap(), dict, true);
+        api
+    }));
+    match r {
+        Ok(api) => {
+            ev.insert("api".into(), api);
+        }
+        Err(_) => {
+            ev.insert("api".into(), json!({"panic": true}));
+        }
+    }
+    let bytes = live.snap.bytes();
+    ev.insert("imghash".into(), json!(format!("{:016x}", fnv64(&bytes))));
+    ev.insert("flen".into(), json!(bytes.len()));
+    if want_img {
+        ev.insert("img".into(), indep::decode(&bytes, dict, iopt));
+    }
+    if want_reopen {
+        ev.insert(
+            "reopen".into(),
+            json!({
+                "strict": reopen_dump(&bytes, true, dict),
+                "permissive": reopen_dump(&bytes, false, dict),
+            }),
+        );
+    }
+    live.snap.pause(false);
+}
+
+fn storages_times(live: &mut Live, dict: &Dict) -> Value {
+    let cf = live.cf.as_ref().unwrap();
+    let mut out = Vec::new();
+    for e in cf.walk() {
+        if e.is_storage() {
+            out.push(json!({"p": dict.path_ids(e.path()), "ct": time_json(e.created()), "mt": time_json(e.modified())}));
+        }
+    }
+    Value::Array(out)
+}
+
+fn write_runs<W: Write>(w: &mut W, runs: &Value) -> io::Result<()> {
+    let bytes = rle::from_json(runs);
+    w.write_all(&bytes)
+}
+
+fn exec(live: &mut Live, op: &Value, dict: &Dict, ev: &mut Map<String, Value>, values: &Value) -> Value {
+    let name = op["op"].as_str().unwrap();
+    let path = || dict.render_path(&op["p"]);
+    let hname = || op["h"].as_str().unwrap_or("").to_string();
+    macro_rules! cf {
+        () => {
+            live.cf.as_mut().unwrap()
+        };
+    }
+    match name {
+        "create_storage" | "create_storage_all" => {
+            let t0 = SystemTime::now();
+            let r = if name == "create_storage" { cf!().create_storage(path()) } else { cf!().create_storage_all(path()) };
+            let t1 = SystemTime::now();
+            ev.insert("t0".into(), time_json(t0));
+            ev.insert("t1".into(), time_json(t1));
+            if r.is_ok() {
+                ev.insert("times".into(), storages_times(live, dict));
+            }
+            res_unit(r)
+        }
+        "touch" => {
+            let t0 = SystemTime::now();
+            let r = cf!().touch(path());
+            let t1 = SystemTime::now();
+            ev.insert("t0".into(), time_json(t0));
+            ev.insert("t1".into(), time_json(t1));
+            if r.is_ok() {
+                ev.insert("times".into(), storages_times(live, dict));
+            }
+            res_unit(r)
+        }
+        "create_stream" | "create_new_stream" => {
+            let r = if name == "create_stream" { cf!().create_stream(path()) } else { cf!().create_new_stream(path()) };
+            match r {
+                Ok(s) => {
+                    if let Some(h) = op["h"].as_str() {
+                        live.handles.insert(h.to_string(), s);
+                    }
+                    ok(json!("unit"))
+                }
+                Err(e) => res_err(e),
+            }
+        }
+        "remove_storage" => res_unit(cf!().remove_storage(path())),
+        "remove_stream" => res_unit(cf!().remove_stream(path())),
+        "remove_storage_all" => res_unit(cf!().remove_storage_all(path())),
+        "exists" => ok(json!(cf!().exists(path()))),
+        "is_stream" => ok(json!(cf!().is_stream(path()))),
+        "is_storage" => ok(json!(cf!().is_storage(path()))),
+        "entry" => match cf!().entry(path()) {
+            Ok(e) => {
+                let mut v = entry_json(&e, dict);
+                if v["k"] != "stream" {
+                    v["l"] = json!(0);
+                }
+                ok(v)
+            }
+            Err(e) => res_err(e),
+        },
+        "root_entry" => {
+            let e = cf!().root_entry();
+            let mut v = entry_json(&e, dict);
+            v["l"] = json!(0);
+            ok(v)
+        }
+        "read_storage" | "walk_storage" => {
+            let r = if name == "read_storage" { cf!().read_storage(path()) } else { cf!().walk_storage(path()) };
+            match r {
+                Ok(it) => ok(Value::Array(
+                    it.map(|e| json!({"p": dict.path_ids(e.path()), "k": if e.is_stream() {"stream"} else if e.is_root() {"root"} else {"storage"}}))
+                        .collect(),
+                )),
+                Err(e) => res_err(e),
+            }
+        }
+        "open_stream" => match cf!().open_stream(path()) {
+            Ok(s) => {
+                let len = s.len();
+                if let Some(h) = op["h"].as_str() {
+                    live.handles.insert(h.to_string(), s);
+                }
+                ok(json!(len))
+            }
+            Err(e) => res_err(e),
+        },
+        "read" => match cf!().open_stream(path()) {
+            Ok(mut s) => {
+                let mut buf = Vec::new();
+                match s.read_to_end(&mut buf) {
+                    Ok(_) => ok(rle::to_json(&buf)),
+                    Err(e) => res_err(e),
+                }
+            }
+            Err(e) => res_err(e),
+        },
+        "write" => match cf!().open_stream(path()) {
+            Ok(mut s) => {
+                let off = op["off"].as_u64().unwrap();
+                let r = s
+                    .seek(SeekFrom::Start(off))
+                    .and_then(|_| write_runs(&mut s, &op["runs"]))
+                    .and_then(|_| s.flush());
+                res_unit(r)
+            }
+            Err(e) => res_err(e),
+        },
+        "set_len" => match cf!().open_stream(path()) {
+            Ok(mut s) => {
+                let n = op["n"].as_u64().unwrap();
+                res_unit(s.set_len(n))
+            }
+            Err(e) => res_err(e),
+        },
+        "set_clsid" => {
+            let c = values["clsid"][op["v"].as_str().unwrap()].as_str().unwrap();
+            let u = uuid::Uuid::parse_str(c).unwrap();
+            res_unit(cf!().set_storage_clsid(path(), u))
+        }
+        "set_bits" => {
+            let b = values["bits"][op["v"].as_str().unwrap()].as_str().unwrap();
+            let n = u32::from_str_radix(b, 16).unwrap();
+            res_unit(cf!().set_state_bits(path(), n))
+        }
+        "set_ctime" | "set_mtime" => {
+            let t = ticks_to_system_time(&values["time"][op["v"].as_str().unwrap()]);
+            if name == "set_ctime" {
+                res_unit(cf!().set_created_time(path(), t))
+            } else {
+                res_unit(cf!().set_modified_time(path(), t))
+            }
+        }
+        "flush" => res_unit(cf!().flush()),
+        "version" => ok(json!(match cf!().version() {
+            cfb::Version::V3 => 3,
+            cfb::Version::V4 => 4,
+        })),
+        "reopen" => {
+            // Drop every handle, take the bytes as they are (no flush), reopen.
+            live.handles.clear();
+            let strict = op["mode"].as_str() == Some("strict");
+            let bytes = live.snap.bytes();
+            live.cf = None;
+            let b = SharedBuf::new(bytes);
+            b.ctl.lock().unwrap().chunks = live.chunks.clone();
+            live.snap = Snap::Mem(b.clone());
+            match open_with(Any::Mem(b), strict, live.maxbuf) {
+                Ok(cf) => {
+                    live.cf = Some(cf);
+                    ok(json!("unit"))
+                }
+                Err(e) => res_err(e),
+            }
+        }
+        // ---- handle operations (each leaves no pending data behind) ----
+        "h_write" => {
+            let h = hname();
+            match live.handles.get_mut(&h) {
+                None => json!({"k":"err","e":"NoHandle"}),
+                Some(s) => {
+                    let off = op["off"].as_u64().unwrap();
+                    let r = s
+                        .seek(SeekFrom::Start(off))
+                        .and_then(|_| write_runs(s, &op["runs"]))
+                        .and_then(|_| s.flush());
+                    res_unit(r)
+                }
+            }
+        }
+        "h_read" => {
+            let h = hname();
+            match live.handles.get_mut(&h) {
+                None => json!({"k":"err","e":"NoHandle"}),
+                Some(s) => {
+                    let mut buf = Vec::new();
+                    let r = s.seek(SeekFrom::Start(0)).and_then(|_| s.read_to_end(&mut buf));
+                    match r {
+                        Ok(_) => ok(rle::to_json(&buf)),
+                        Err(e) => res_err(e),
+                    }
+                }
+            }
+        }
+        "h_len" => {
+            let h = hname();
+            match live.handles.get(&h) {
+                None => json!({"k":"err","e":"NoHandle"}),
+                Some(s) => ok(json!(s.len())),
+            }
+        }
+        "h_set_len" => {
+            let h = hname();
+            match live.handles.get_mut(&h) {
+                None => json!({"k":"err","e":"NoHandle"}),
+                Some(s) => res_unit(s.set_len(op["n"].as_u64().unwrap())),
+            }
+        }
+        "h_close" => {
+            live.handles.remove(&hname());
+            ok(json!("unit"))
+        }
+        other => json!({"k":"err","e":"UnknownOp","msg":other}),
+    }
+}
+
+fn main() {
+    let args: Vec<String> = std::env::args().collect();
+    if args.len() < 3 {
+        eprintln!("usage: drive <script.json> <out.ndjson> [--journal f] [--from i] [--only i]");
+        std::process::exit(2);
+    }
+    let mut journal: Option<String> = None;
+    let mut from = 0usize;
+    let mut only: Option<usize> = None;
+    let mut i = 3;
+    while i < args.len() {
+        match args[i].as_str() {
+            "--journal" => {
+                journal = Some(args[i + 1].clone());
+                i += 1;
+            }
+            "--from" => {
+                from = args[i + 1].parse().unwrap();
+                i += 1;
+            }
+            "--only" => {
+                only = Some(args[i + 1].parse().unwrap());
+                i += 1;
+            }
+            _ => {}
+        }
+        i += 1;
+    }
+    std::panic::set_hook(Box::new(|_| {}));
+    let text = std::fs::read_to_string(&args[1]).expect("script");
+    let script: Value = serde_json::from_str(&text).expect("script json");
+    let dict = match script["dict_path"].as_str() {
+        Some(p) => Dict::load(p),
+        None => Dict::empty(),
+    };
+    let values: Value = match script["values_path"].as_str() {
+        Some(p) => serde_json::from_str(&std::fs::read_to_string(p).expect("values")).unwrap(),
+        None => json!({}),
+    };
+    let tmpdir = script["tmpdir"].as_str().unwrap_or("/verif/work/tmp").to_string();
+    let out = std::fs::File::create(&args[2]).expect("out");
+    let mut out = BufWriter::new(out);
+    let iopt = indep::Options::default();
+    let hists = script["histories"].as_array().expect("histories");
+    for (hi, hist) in hists.iter().enumerate() {
+        if hi < from {
+            continue;
+        }
+        if let Some(o) = only {
+            if hi != o {
+                continue;
+            }
+        }
+        if let Some(j) = &journal {
+            std::fs::write(j, format!("{}", hi)).ok();
+        }
+        let heavy_mode = hist["heavy"].as_str().unwrap_or("all").to_string();
+        let want_reopen = hist["reopen"].as_bool().unwrap_or(true);
+        let want_img = hist["img"].as_bool().unwrap_or(true);
+        let ops = hist["ops"].as_array().cloned().unwrap_or_default();
+        let mut reset = Map::new();
+        reset.insert("ev".into(), json!("reset"));
+        reset.insert("hi".into(), json!(hi));
+        reset.insert("id".into(), hist["id"].clone());
+        reset.insert("ver".into(), hist["ver"].clone());
+        reset.insert("cfg".into(), hist.get("cfg").cloned().unwrap_or(json!("")));
+        let started = catch_unwind(AssertUnwindSafe(|| start_history(hist, &tmpdir)));
+        let mut live = match started {
+            Ok(Ok(l)) => {
+                reset.insert("res".into(), ok(json!("unit")));
+                l
+            }
+            Ok(Err(e)) => {
+                reset.insert("res".into(), e);
+                reset.insert("heavy".into(), json!(false));
+                writeln!(out, "{}", Value::Object(reset)).unwrap();
+                continue;
+            }
+            Err(_) => {
+                reset.insert("res".into(), json!({"k":"panic"}));
+                reset.insert("heavy".into(), json!(false));
+                writeln!(out, "{}", Value::Object(reset)).unwrap();
+                continue;
+            }
+        };
+        let h0 = heavy_mode != "none";
+        reset.insert("heavy".into(), json!(h0));
+        if h0 {
+            heavy(&mut live, &dict, &mut reset, want_img, want_reopen, &iopt);
+        }
+        writeln!(out, "{}", Value::Object(reset)).unwrap();
+        let n = ops.len();
+        for (oi, op) in ops.iter().enumerate() {
+            let mut ev = Map::new();
+            ev.insert("ev".into(), json!("op"));
+            ev.insert("hi".into(), json!(hi));
+            ev.insert("oi".into(), json!(oi));
+            if let Some(o) = op.as_object() {
+                for (k, v) in o {
+                    ev.insert(k.clone(), v.clone());
+                }
+            }
+            let r = catch_unwind(AssertUnwindSafe(|| exec(&mut live, op, &dict, &mut ev, &values)));
+            let res = match r {
+                Ok(v) => v,
+                Err(p) => {
+                    let msg = p.downcast_ref::<String>().cloned().or_else(|| p.downcast_ref::<&str>().map(|s| s.to_string())).unwrap_or_default();
+                    json!({"k": "panic", "msg": msg})
+                }
+            };
+            let panicked = res["k"] == "panic";
+            ev.insert("res".into(), res);
+            let is_heavy = !panicked
+                && live.cf.is_some()
+                && match heavy_mode.as_str() {
+                    "all" => true,
+                    "last" => oi + 1 == n || op["heavy"].as_bool() == Some(true),
+                    "none" => false,
+                    _ => op["heavy"].as_bool().unwrap_or(false),
+                }
+                && op["heavy"].as_bool() != Some(false);
+            ev.insert("heavy".into(), json!(is_heavy));
+            if is_heavy {
+                heavy(&mut live, &dict, &mut ev, want_img, want_reopen, &iopt);
+            } else if !panicked && live.cf.is_some() {
+                let bytes_len = match &live.snap {
+                    Snap::Mem(b) => b.len(),
+                    Snap::File(p) => std::fs::metadata(p).map(|m| m.len() as usize).unwrap_or(0),
+                };
+                ev.insert("flen".into(), json!(bytes_len));
+            }
+            writeln!(out, "{}", Value::Object(ev)).unwrap();
+            if panicked || live.cf.is_none() {
+                break;
+            }
+        }
+        live.handles.clear();
+        live.cf = None;
+        if let Snap::File(p) = &live.snap {
+            std::fs::remove_file(p).ok();
+        }
+        let _ = unlimbs;
+    }
+    out.flush().unwrap();
+}
